@@ -403,6 +403,13 @@ def flags(t):
 def expr(t):
     return t.split("#")[0].strip()
 
+# ---- late additions: functions reachable through NumPy's dispatch that the groups above did not name
+reg("np.lib.stride_tricks.sliding_window_view", "np.lib.stride_tricks.sliding_window_view(a, 2, subok=True) #K", "np.lib.stride_tricks.sliding_window_view(M, (2, 2), subok=True) #K")
+reg("np.emath.sqrt", "np.emath.sqrt(pos)", "np.emath.power(pos, 2)")
+reg("np.require", "np.require(M.T, requirements='C') #K", "np.require(a, dtype=None, requirements=['A', 'O']) #K")
+reg("np.asfortranarray", "np.asfortranarray(M) #N#X")
+reg("np.permute_dims", "np.permute_dims(T4, (1, 0, 2)) #K", "np.cumulative_sum(M, axis=1, include_initial=True) #K")
+
 
 import re as _re
 
